@@ -7,6 +7,7 @@ import (
 	"path/filepath"
 	"strings"
 	"sync/atomic"
+	"time"
 
 	"verifharness/internal/kv"
 	"verifharness/internal/rng"
@@ -130,6 +131,38 @@ func staleHandleScenario(c *sup.Ctx) {
 			return true
 		}, nil)
 	}
+	// handle B "creates" the collections that exist already (an idempotent-looking call, whatever it answers): their
+	// documents must all still be there
+	for _, n := range names {
+		if _, alive := collsA[n.Collection]; !alive || (follow == "recreate-same" && n == victim) {
+			continue
+		}
+		func() { defer func() { _ = recover() }(); _ = b.CreateDataStore(ctx, n) }()
+		c.Count("creates_of_an_existing_collection", 1)
+	}
+	for _, x := range base {
+		now := kv.ReadBack(collsA[x.coll], x.key)
+		if d := x.obs.Diff(&now); d != "" {
+			c.Viol([]string{"C01", "C11"}, "stale-handle|create-existing-changes-documents",
+				fmt.Sprintf("CreateDataStore for a collection that already exists (issued through another handle) changed %s of key %s in collection %s: a document goes missing only when it is deleted, purged or its collection dropped", d, x.key, x.coll), map[string]any{"disk": disk})
+			return
+		}
+	}
+	// the collection that was created again gets a live feed through handle A (used below)
+	var recEvents atomic.Int64
+	recDone := make(chan struct{})
+	if follow == "recreate-same" {
+		if col := collsA[victim.Collection]; col != nil {
+			if ferr := col.StartDCPFeed(ctx, sgbucket.FeedArguments{ID: "stale-recreated", Backfill: sgbucket.FeedNoBackfill, Terminator: term, DoneChan: recDone}, func(e sgbucket.FeedEvent) bool {
+				if string(e.Key) == "after-the-fetch" {
+					recEvents.Add(1)
+				}
+				return true
+			}, nil); ferr == nil {
+				dones = append(dones, recDone)
+			}
+		}
+	}
 	// handle B, through the DataStore it obtained before the drop and through one it asks for now
 	stale := []*rosmar.Collection{collsB[victim.Collection]}
 	if follow != "recreate-same" {
@@ -156,6 +189,28 @@ func staleHandleScenario(c *sup.Ctx) {
 			werr := byName.SetRaw("via-b", 0, nil, []byte("written through handle B"))
 			if werr != nil {
 				c.Viol([]string{"C11", "C01"}, "stale-handle|by-name-after-recreation|write", fmt.Sprintf("after handle A dropped and re-created %s, a write through the DataStore handle B obtains for that name now fails: %v", full, werr), det)
+			}
+			// replacing the stale object in handle B's cache must not have ended the feeds of the collection that exists now
+			if aerr := collsA[victim.Collection].SetRaw("after-the-fetch", 0, nil, []byte("x")); aerr == nil {
+				ok := false
+				for t := 0; t < 5000 && !ok; t++ {
+					ok = recEvents.Load() > 0
+					if !ok {
+						time.Sleep(time.Millisecond)
+					}
+				}
+				ended := false
+				select {
+				case <-recDone:
+					ended = true
+				default:
+				}
+				c.Count("feeds_on_a_recreated_collection_checked_after_a_fetch_by_name", 1)
+				if !ok || ended {
+					c.Viol([]string{"C08", "C11", "C16"}, "stale-handle|by-name-after-recreation|feed-ended", fmt.Sprintf("after handle B fetched the re-created collection %s by name, a live feed on it (started through handle A) %s a write made through handle A", full, ifStr(ended, "had ended and never delivered", "did not deliver within 5 s")), det)
+				}
+			}
+			if werr != nil {
 			} else if got, _, aerr := collsA[victim.Collection].GetRaw("via-b"); aerr != nil || string(got) != "written through handle B" {
 				c.Viol([]string{"C11", "C01"}, "stale-handle|by-name-after-recreation|write-invisible", fmt.Sprintf("after handle A dropped and re-created %s, a write acknowledged through the DataStore handle B obtained for that name is not readable through handle A: %q (%v)", full, got, aerr), det)
 			}
